@@ -233,7 +233,9 @@ def explore(recipe: dict, frng: Rng, tier: dict, root: str, idx: int, only_kinds
            "digests": [], "harness": []}
 
     def record(plan, rec):
-        out["saves"] += 1 + (1 if "retry" in rec else 0) + (1 if "second_save" in rec else 0) + (1 if "resave" in rec else 0)
+        out["saves"] += 1 + (1 if "retry" in rec else 0) + (1 if "second_save" in rec else 0) + (1 if "resave" in rec else 0) + (1 if "edited_save" in rec else 0)
+        if "edited_save" in rec:
+            out["probes"][f"edited_then_saved_again:{rec.get('edit')}:{rec['edited_save'].split()[0]}"] += 1
         out["digests"].append(engine.digest(rec))
         out["outcomes"][rec["outcome"] if not recipe.get("uninit") else "refused" if rec["outcome"] == "raised" else "returned"] += 1
         for v in rec["violations"]:
